@@ -32,4 +32,24 @@ ApplyG(cfg, op) ==
         code |-> IF op.err THEN "inner" ELSE "OK", same |-> TRUE]
   ELSE [asked |-> <<lim>>, ran |-> 0, completed |-> <<>>,
         code |-> IF cfg.customle THEN op.lecode ELSE "ResourceExhausted", same |-> FALSE]
+
+(* Two interceptors of this package chained (a server-wide limiter around a per-service one, say): each layer is an   *)
+(* interceptor of its own - the outer layer gates on its own limiter (names "o.main", "o.recv", "o.send") before the *)
+(* inner layer is entered at all, and completes its token after the inner layer has returned, classifying what the  *)
+(* inner layer returned (its limit-exceeded status is an error like any other).  op.ogrant: the outer limiter grants.*)
+OuterErr(op) == ~op.grant \/ op.err
+OuterOutcome(cfg, op) ==
+  IF op.kind \in {"recv", "send"} /\ ~OuterErr(op) THEN "success"
+  ELSE IF cfg.custom THEN op.cls
+  ELSE IF OuterErr(op) THEN "dropped" ELSE "success"
+
+ChainG(cfg, op) ==
+  LET olim == "o." \o LimiterFor(op.kind) IN
+  IF ~op.ogrant
+  THEN [asked |-> <<olim>>, ran |-> 0, completed |-> <<>>,
+        code |-> IF cfg.customle THEN op.lecode ELSE "ResourceExhausted", same |-> FALSE]
+  ELSE LET r == ApplyG(cfg, op) IN
+       [asked |-> <<olim>> \o r.asked, ran |-> r.ran,
+        completed |-> r.completed \o <<[lim |-> olim, outcome |-> OuterOutcome(cfg, op)]>>,
+        code |-> r.code, same |-> r.same]
 =================================================================================
